@@ -10,7 +10,10 @@ mod mon_slice;
 mod mon_text;
 mod mon_twin;
 mod ops;
+mod props_det;
 mod props_hist;
+mod props_merge;
+mod props_script;
 mod props_io;
 mod props_pure;
 mod rec;
@@ -51,6 +54,10 @@ fn main() {
                     props_hist::run_shard(&cfg, &mut out)
                 }
                 "C09" => props_io::run_c09(&cfg, &mut out),
+                "C11" => props_merge::run_c11(&cfg, &mut out),
+                "C12" => props_merge::run_c12(&cfg, &mut out),
+                "C14" => props_script::run_c14(&cfg, &mut out),
+                "C19" => props_det::run_c19(&cfg, &mut out),
                 "C15" => props_pure::run_c15(&cfg, &mut out),
                 "C16" => props_pure::run_c16(&cfg, &mut out),
                 "C17" => props_pure::run_c17(&cfg, &mut out),
@@ -64,6 +71,11 @@ fn main() {
                 Some(p) => std::fs::write(p, js).expect("write out"),
                 None => println!("{js}"),
             }
+        }
+        "trace" => {
+            let file = PathBuf::from(args.get(2).expect("trace <file> <workdir>"));
+            let work = PathBuf::from(args.get(3).expect("trace <file> <workdir>"));
+            std::process::exit(props_det::trace_main(&file, &work));
         }
         "replay" => {
             let path = PathBuf::from(args.get(2).expect("replay <file>"));
@@ -80,6 +92,9 @@ fn main() {
                     props_hist::replay(&rp, &work)
                 }
                 "C09" => props_io::replay(&rp),
+                "C11" | "C12" => props_merge::replay(&rp, &work),
+                "C14" => props_script::replay(&rp, &work),
+                "C19" => props_det::replay(&rp, &work),
                 "C15" | "C16" | "C17" => props_pure::replay(&rp),
                 p => {
                     eprintln!("no replay for {p}");
